@@ -543,6 +543,12 @@ impl Ctx {
             gate_timeout: Duration::from_millis(if cfg!(miri) { 50 } else { 1500 }),
         })
     }
+    /// Same, with a longer watchdog for gates that wait on something the code under test may legitimately take long over.
+    pub fn with_gate_timeout(policy: Policy, log: bool, timeout: Duration) -> Arc<Ctx> {
+        let mut c = Ctx::new(policy, log);
+        Arc::get_mut(&mut c).expect("fresh").gate_timeout = timeout;
+        c
+    }
     pub fn count(&self, role: u8, point: usize) -> u32 {
         self.counts[role as usize * NPOINTS + point].load(Ordering::SeqCst)
     }
